@@ -4,7 +4,7 @@ import common as C
 import gen as G
 import docgen as D
 
-MODEL_TARGETS = ["model/Parse.vo", "model/CanonicalForm.vo", "spec/PcfSpec.vo"]
+MODEL_TARGETS = ["model/Parse.vo", "model/JsonRead.vo", "proofs/JsonReadSchema.vo", "model/CanonicalForm.vo", "spec/PcfSpec.vo"]
 COQ_TARGETS = ["props/C07.vo"]
 THEOREMS = [("C07", ["C07_ns_edge_def", "C07_ns_edge_ref", "C07_resolve", "C07_resolve_iff", "C07_reject_unknown_reference",
                      "C07_reject_duplicate_definition", "C07_reject_missing_attribute", "C07_no_unconditional_cycle",
@@ -17,9 +17,9 @@ PROOF_FILES = ["proofs/SchemaTextProofs.v", "proofs/ParseResolveDefs.v", "proofs
 TRUSTED_BASE = [
     "Coq 8.16.1 kernel; no axioms (Print Assumptions: closed)",
     "spec/PcfSpec.v: the Parsing Canonical Form and the fullname rules written from the Avro specification on the JSON AST (no graph); extracted as the oracle for the crate's canonical form text (hook H1)",
-    "hand-written models Parse.v (raw.rs, parsing/mod.rs, check_for_cycles.rs) and CanonicalForm.v tied by the correspondence run: node vector, canonical form text and fingerprint, model vs crate, on generated documents in every namespace spelling",
-    "serde_json (text -> AST) is outside the model; Python's json module (order / duplicates / number tokens preserved) provides the AST for the model side; "
-    "number tokens in free positions (defaults, custom attributes) reach the model in the spelling serde_json prints for the number it read (docgen.serde_num, Python-side)",
+    "hand-written models Parse.v (raw.rs, parsing/mod.rs, check_for_cycles.rs) and CanonicalForm.v tied by the correspondence run: node vector, canonical form text and fingerprint, model vs crate, on the TEXT of generated documents in every namespace spelling (model: JsonReadSchema.parse_schema_text = json_of_text then parse_schema)",
+    "the JSON text layer is IN the model: the model side gets the same text as the crate and reads it with the extracted JsonRead.json_of_text (serde_json's grammar, escapes and surrogate pairs, UTF-8 check, recursion limit 128; hand-written from serde_json's de.rs / read.rs), tied to serde_json by the correspondence runs (C19: a directed + random family of texts, reader alone (`jsonread` both sides: accept / reject and the document read) and through the schema parser); Python's json module only cross-checks the model's reading (model differences when they disagree) and no longer feeds the model",
+    "number tokens: the model keeps a token as written, serde_json re-prints the value it read; reported JSON is compared after docgen.serde_num (Python-side: how serde_json prints the number it reads from a token) applied to the number tokens of the model's compact text (jsontext.norm_text_numbers); a token whose value overflows f64 (1e999) is rejected by serde_json and kept by the model: such texts are classified unmodelled (counted), and only those",
 ]
 ASSUMPTIONS = [
     "proved: for every document valid per the specification (definition before use) parsing succeeds and canonical_form(parse j) = PcfSpec.pcf j, i.e. every reference resolves to the type the specification designates, field order / symbols / sizes preserved (C07_resolve); unknown reference, duplicate fullname, missing attribute, unconditional record cycle are errors; the cycle check is exact",
@@ -207,20 +207,27 @@ def run(ctx):
             ref_doc = D.DocGen(rng, nodes, forward=0.0, extras=0.0).gen(0, None)
             arrangement[len(cases)] = arr
             cases.append(("valid", nodes, doc, ref_doc, dg.has_forward))
+    import jsontext as JT
     texts = [D.to_text(c[2], rng) for c in cases]
     impl = C.run_parallel(C.AVRODRIVE, ["parse " + C.hx(t) for t in texts])
-    # the model starts from the AST serde_json's reader produces: number tokens of free positions in serde_json's own spelling
-    model = C.run_parallel(C.AVROMODEL, ["parse " + D.to_sx(D.norm_numbers(c[2])) for c in cases])
+    # the model gets the SAME text as the crate and reads it with its own reader (JsonRead.json_of_text, then Parse.parse_schema =
+    # JsonReadSchema.parse_schema_text). It keeps number tokens as written: its JSON is compared after serde_json's re-printing
+    # (jsontext.norm_hex = docgen.serde_num on the number tokens of the compact text)
+    model = C.run_parallel(C.AVROMODEL, ["parse (text %s)" % C.hx(t) for t in texts])
+    # cross-check: the model's reading of the text is the document the text was written from (the generator's AST)
+    ast_diffs = JT.ast_cross_check(texts, [c[2] for c in cases], "C07 documents")
     refm = C.run_parallel(C.AVROMODEL, ["parse " + D.to_sx(c[3]) for c in cases if c[0] == "valid"])
     built = C.run_parallel(C.AVRODRIVE, ["fp " + G.schema_sx(c[1]) for c in cases if c[0] == "valid"])
     refm, built = iter(refm), iter(built)
-    violations, diffs, samples, distinct = [], [], [], set()
+    violations, diffs, samples, distinct = [], list(ast_diffs), [], set()
     from collections import Counter
     dist = Counter()
     for ci, ((kind, nodes, doc, ref_doc, fwd), text, ri, rm) in enumerate(zip(cases, texts, impl, model)):
         line = "parse " + C.hx(text)
-        mline = "parse " + D.to_sx(D.norm_numbers(doc))
+        mline = "parse (text %s)" % C.hx(text)
         pi, pm = C.parse_sx(ri)[0], C.parse_sx(rm)[0]
+        if pm[0] == "ok":
+            pm[4] = JT.norm_hex(pm[4])
         distinct.add(D.minified(doc))
         if pi[0] in ("crash", "panic", "bad-case"):
             violations.append({"impl_case": line, "what": "parsing a document did not return Ok or Err: %s" % ri[:100], "document": text[:800]})
